@@ -64,7 +64,8 @@ theorem distinct_urls_distinct_stores (hcf : ∀ a b, sha a = sha b → a = b) (
 
 omit hlen in
 theorem distinct_files_distinct_stores (hcf : ∀ a b, sha a = sha b → a = b) (f f' : Name)
-    (h : fileId sha f = fileId sha f') : f = f' := hcf _ _ (hex_inj _ _ h)
+    (h : fileId sha pathFacts f = fileId sha pathFacts f') : f = f' :=
+  List.append_cancel_left (hcf _ _ (hex_inj _ _ h))
 
 omit hlen in
 theorem mapOpt_map {α β γ} (f : α → Option β) (g : β → γ) (l : List α) :
@@ -104,10 +105,42 @@ theorem distinct_cdp_lists_distinct_stores (hcf : ∀ a b, sha a = sha b → a =
       rw [List.map_inj_right (fun a b hab => hinj hab) |>.mp hids]
 
 omit hlen in
-/-- Observation (not a guarantee): the three kinds of location are not separated from each other. A `crl_files`
-entry whose *name* is the normalised form of a URL gets the URL's identifier, hence its store. The harness replays this. -/
-theorem kinds_not_separated (u p : Name) (h : norm u = some p) : urlId sha norm u = some (fileId sha p) := by
-  simp [urlId, fileId, h]
+/-- **Kinds are separated (file / URL).** A file location and a URL location never share a store, whatever the file
+is called: the file pre-image starts with a control byte, and the normaliser's output contains no byte below 0x20
+(hypothesis `hnorm`; the harness checks it on every URL string it uses). Up to SHA-256 collisions. -/
+theorem file_and_url_never_share_a_store (hcf : ∀ a b, sha a = sha b → a = b)
+    (hnorm : ∀ u p, norm u = some p → ∀ b ∈ p, (32 : UInt8) ≤ b) (u f : Name) (i : Name)
+    (h : urlId sha norm u = some i) : fileId sha pathFacts f ≠ i := by
+  intro hf
+  unfold urlId at h
+  cases hu : norm u with
+  | none => simp [hu] at h
+  | some p =>
+    simp only [hu, Option.map_some, Option.some.injEq] at h
+    have e : pathFacts.fileIdPrefix ++ f = p := hcf _ _ (hex_inj _ _ (hf.trans h.symm))
+    have h0 : (0 : UInt8) ∈ p := by rw [← e]; exact List.mem_append_left _ (by decide)
+    exact absurd (hnorm u p hu 0 h0) (by decide)
+
+/-- **Kinds are separated (file / distribution-point list).** The pre-image of a CDP identifier is a concatenation of
+hex identifiers, the file pre-image starts with a byte that is no hex digit. -/
+theorem file_and_cdp_never_share_a_store (hcf : ∀ a b, sha a = sha b → a = b) (cdps : List Name) (f : Name) (i : Name)
+    (h : cdpId sha norm pathFacts cdps = some i) : fileId sha pathFacts f ≠ i := by
+  intro hf
+  unfold cdpId at h
+  split at h; · cases h
+  have e0 : ∀ l, mapOpt (urlId sha norm) l = (mapOpt norm l).map (List.map (storeName sha)) :=
+    fun l => mapOpt_map norm (storeName sha) l
+  rw [e0] at h
+  cases hn : mapOpt norm (cdpKept pathFacts cdps) with
+  | none => simp [hn] at h
+  | some ns =>
+    simp only [hn, Option.map_some, Option.some.injEq] at h
+    have e : pathFacts.fileIdPrefix ++ f = (ns.map (storeName sha)).flatten := hcf _ _ (hex_inj _ _ (hf.trans h.symm))
+    have h0 : (0 : UInt8) ∈ (ns.map (storeName sha)).flatten := by rw [← e]; exact List.mem_append_left _ (by decide)
+    obtain ⟨l, hl, hm⟩ := List.mem_flatten.mp h0
+    obtain ⟨y, _, rfl⟩ := List.mem_map.mp hl
+    have := hex_all _ 0 hm
+    revert this; decide
 
 end names
 
